@@ -66,6 +66,8 @@ type w7Ops struct {
 	AnnounceMs int      `json:"announce_ms"` // discovery takes this long to announce a device
 	OpenFails  int      `json:"open_fails"`  // the first k attempts to open a device fail (node not ready yet)
 	SlowOutUs  int      `json:"slow_out_us"` // the MIDI consumer takes this long per message
+	DiskUs     int      `json:"disk_us,omitempty"`  // every open / read of the program takes this long (slow storage)
+	FloodUs    int      `json:"flood_us,omitempty"` // MIDI input arrives all the time, one message per period
 }
 
 const keyA = 30 // KEY_A
@@ -95,6 +97,12 @@ func genW7(r *simrt.Rng) *w7Ops {
 	}
 	if r.Chance(0.25) {
 		o.SlowOutUs = []int{100, 2000}[r.Intn(2)]
+	}
+	if r.Chance(0.3) {
+		o.DiskUs = []int{200, 1000, 5000}[r.Intn(3)]
+	}
+	if r.Chance(0.3) {
+		o.FloodUs = []int{300, 2000, 10000}[r.Intn(3)]
 	}
 	// the factory default of every class in use always exists at the start; the other three ranks per device at random
 	for _, gp := range []bool{false, true} {
@@ -193,6 +201,16 @@ func shrinkW7(raw json.RawMessage) []json.RawMessage {
 	if o.OpenFails > 0 || o.SlowOutUs > 0 || o.AnnounceMs > 1 {
 		c := o
 		c.OpenFails, c.SlowOutUs, c.AnnounceMs = 0, 0, 1
+		emit(c)
+	}
+	if o.DiskUs > 0 {
+		c := o
+		c.DiskUs = 0
+		emit(c)
+	}
+	if o.FloodUs > 0 {
+		c := o
+		c.FloodUs = 0
 		emit(c)
 	}
 	return out
@@ -329,6 +347,15 @@ func runW7(t *testing.T, job *worlds.Job, seed uint64, rp *worlds.Replay) worlds
 		defer close(stop)
 		simfs.Attach(fsys)
 		defer simfs.Attach(nil)
+		fsys.MarkUserTask() // this task is the user who edits files
+		if ops.DiskUs > 0 {
+			fsys.Delay = func(kind, path string) time.Duration {
+				if kind == "open" || kind == "read" || kind == "readdir" {
+					return time.Duration(ops.DiskUs) * time.Microsecond
+				}
+				return 0
+			}
+		}
 		fsnotify.Subscribe = fsys.Subscribe
 		fsnotify.Go = simrt.Go
 		fsnotify.Yield = simrt.Yield
@@ -444,6 +471,24 @@ func runW7(t *testing.T, job *worlds.Job, seed uint64, rp *worlds.Replay) worlds
 				}
 			}
 		})
+		floodStop, floodDone := false, ops.FloodUs == 0
+		if ops.FloodUs > 0 {
+			simrt.Go("midi-flood", func() {
+				for n := 0; ; n++ {
+					mu.Lock()
+					st := floodStop
+					mu.Unlock()
+					if st {
+						break
+					}
+					simrt.Send(midiIn, midi.Event{0x90 | byte(n%16), byte(n % 128), 64})
+					simrt.Sleep(time.Duration(ops.FloodUs) * time.Microsecond)
+				}
+				mu.Lock()
+				floodDone = true
+				mu.Unlock()
+			})
+		}
 		take := func() [][]byte {
 			mu.Lock()
 			defer mu.Unlock()
@@ -613,7 +658,17 @@ func runW7(t *testing.T, job *worlds.Job, seed uint64, rp *worlds.Replay) worlds
 			}
 		}
 
-		simrt.WaitIdle()
+		// the application is up once its first discovery cycle runs (the initial load may be slow)
+		for k := 0; k < 3000; k++ {
+			simrt.WaitIdle()
+			mu.Lock()
+			c := cycles
+			mu.Unlock()
+			if c > 0 {
+				break
+			}
+			simrt.Sleep(10 * time.Millisecond)
+		}
 		held := -1
 		isPlugged := func(i int) bool { mu.Lock(); defer mu.Unlock(); return i < len(plugged) && plugged[i] }
 		for k, op := range ops.Ops {
@@ -762,6 +817,18 @@ func runW7(t *testing.T, job *worlds.Job, seed uint64, rp *worlds.Replay) worlds
 			return
 		}
 		// the fan-out's reader lives as long as the application's MIDI input (main never closes it): end that too
+		mu.Lock()
+		floodStop = true
+		mu.Unlock()
+		for k := 0; k < 200; k++ {
+			mu.Lock()
+			fd := floodDone
+			mu.Unlock()
+			if fd {
+				break
+			}
+			simrt.Sleep(10 * time.Millisecond)
+		}
 		simrt.Close(midiIn)
 		simrt.WaitIdle()
 		if alive := simrt.AliveUnder(tid); len(alive) > 0 && !failed() {
@@ -786,6 +853,12 @@ func runW7(t *testing.T, job *worlds.Job, seed uint64, rp *worlds.Replay) worlds
 	}
 	if ops.SlowOutUs > 0 {
 		ro.Faults["slow_midi_consumer"]++
+	}
+	if ops.DiskUs > 0 {
+		ro.Faults["slow_storage"]++
+	}
+	if ops.FloodUs > 0 {
+		ro.Faults["midi_input_all_the_time"]++
 	}
 	for _, m := range ops.Mouse {
 		if m {
